@@ -224,6 +224,11 @@ func shutGen(seed uint64, tier string) KScenario {
 		h := int64(r.Pick(170, 200, 230))
 		sc.Cfg.HSIdleMS = [2]int64{h, int64(r.Pick(0, int(h)))}
 	}
+	// the cause fires during (or shortly before / after) an outage
+	if sc.Class == "faulty" && len(sc.Net.Outages) == 0 && sc.Base == "est" && sc.hasAction() && r.P(0.25) {
+		from := int64(r.Pick(50, 200, 500, 900))
+		sc.Net.Outages = []WOutage{{Dir: r.N(3), FromMS: from, ToMS: from + int64(r.Pick(100, 1000, int(maxIdle)+1000))}}
+	}
 	// blocked calls
 	n := r.Pick(0, 1, 2, 3, 4, 6, 8)
 	for i := 0; i < n; i++ {
